@@ -65,7 +65,10 @@ impl Check for C10 {
             st.oracle_evals += 1;
             st.log("history", ops.len() as u64, shape as u64);
             let bytes = match real {
-                RealOutcome::Built(b) => b,
+                RealOutcome::Built(b) => {
+                    st.log("built", b.len() as u64, fnv(&b));
+                    b
+                }
                 _ => {
                     // the property is about sequences that succeed
                     st.hit("history_did_not_succeed");
